@@ -1,9 +1,10 @@
 (* C13 — property theorems only (each closed by [exact]) + Print Assumptions.
    Over Scorch/Disk.v, for every event list accepted by [drun] from [dinit]. *)
-From Coq Require Import ZArith List Permutation Sorted.
+From Coq Require Import NArith ZArith List Permutation Sorted.
 From Verif Require Import Scorch.Model Scorch.Disk
   Scorch.ProofsDisk1 Scorch.ProofsDisk4 Scorch.ProofsDisk5 Scorch.ProofsDisk6
-  Scorch.Retention Scorch.RetentionProofs Scorch.RetentionProofs2.
+  Scorch.Retention Scorch.RetentionProofs Scorch.RetentionProofs2
+  Scorch.EpochCodec Scorch.EpochCodecProofs.
 Import ListNotations.
 Local Open Scope Z_scope.
 
@@ -165,3 +166,74 @@ Theorem C13_sampling_spacing_refuted : exists maxp interval snaps,
   ~ spaced interval (time_series maxp interval snaps).
 Proof. exact sampling_spacing_refuted. Qed.
 Print Assumptions C13_sampling_spacing_refuted.
+
+(* ------------------------------------------------------------------------------------------
+   Snapshot-epoch bucket keys (Scorch/EpochCodec.v: encodeUvarintAscending /
+   decodeUvarintAscending of index/scorch/int.go).  "Every rollback point ... identified by the
+   internal values stored with it, and the list always includes the most recent persisted
+   state": RollbackPoints, Rollback, reopen and the purger find a snapshot by the encoding of
+   its epoch and take "newest" to be the last key in bolt's byte order.  Epochs are uint64
+   values (< two64 = 2^64); bytes are numbers below 256. *)
+
+(* an epoch's key reads back as that epoch, whatever follows it *)
+Theorem C13_epoch_decode_encode : forall v rest,
+  (v < two64)%N -> decode (encode v ++ rest) = Some (rest, v).
+Proof. exact decode_encode. Qed.
+Print Assumptions C13_epoch_decode_encode.
+
+(* bytes.Compare order of keys (bolt's cursor order) = numeric order of epochs *)
+Theorem C13_epoch_encode_order : forall a b,
+  (a < two64)%N -> (b < two64)%N -> ((a < b)%N <-> lex_lt (encode a) (encode b)).
+Proof. exact encode_order. Qed.
+Print Assumptions C13_epoch_encode_order.
+
+Theorem C13_epoch_encode_injective : forall a b,
+  (a < two64)%N -> (b < two64)%N -> encode a = encode b -> a = b.
+Proof. exact encode_injective. Qed.
+Print Assumptions C13_epoch_encode_injective.
+
+(* no key is a prefix of another key *)
+Theorem C13_epoch_encode_prefix_free : forall a b x,
+  (a < two64)%N -> (b < two64)%N -> encode b = encode a ++ x -> a = b /\ x = [].
+Proof. exact encode_prefix_free. Qed.
+Print Assumptions C13_epoch_encode_prefix_free.
+
+(* on arbitrary bytes the decoder fails or returns the value and remainder of exactly one of
+   the three forms it accepts ([accepted]: the one-byte form of 0..109; a tag 246..253 with 1..8
+   big-endian payload bytes, minimal or zero-padded; a tag below 136, which it does not reject
+   but reads as 2^64-136+tag) — and it accepts every such form *)
+Theorem C13_epoch_decode_total : forall bs rest v,
+  bytes_ok bs -> decode bs = Some (rest, v) -> accepted bs rest v /\ (v < two64)%N.
+Proof. exact decode_total. Qed.
+Print Assumptions C13_epoch_decode_total.
+
+Theorem C13_epoch_decode_accepts : forall bs rest v,
+  accepted bs rest v -> decode bs = Some (rest, v).
+Proof. exact decode_accepts. Qed.
+Print Assumptions C13_epoch_decode_accepts.
+
+(* a decoded value that did not come from the encoder's own form used a non-minimal
+   length prefix or a tag below 136 *)
+Theorem C13_epoch_decode_canonical : forall bs rest v,
+  bytes_ok bs -> decode bs = Some (rest, v) ->
+  bs = encode v ++ rest \/
+  (exists n, (1 <= n <= 8)%nat /\ n <> width v /\ bs = encode_w n v ++ rest) \/
+  (exists b0, (b0 < intZero)%N /\ bs = b0 :: rest).
+Proof. exact decode_canonical. Qed.
+Print Assumptions C13_epoch_decode_canonical.
+
+(* the newest snapshot: the last key in byte order is the key of the largest epoch and
+   decodes to it *)
+Theorem C13_epoch_max_key_is_max_epoch : forall e es,
+  (e < two64)%N -> Forall (fun x => (x < two64)%N) es ->
+  max_key (encode e) (map encode es) = encode (max_epoch e es) /\
+  decode (max_key (encode e) (map encode es)) = Some ([], max_epoch e es).
+Proof. exact max_key_is_max_epoch. Qed.
+Print Assumptions C13_epoch_max_key_is_max_epoch.
+
+(* a cursor walk over the keys visits the epochs in numeric order *)
+Theorem C13_epoch_keys_sorted_iff : forall es,
+  Forall (fun x => (x < two64)%N) es ->
+  (StronglySorted lex_lt (map encode es) <-> StronglySorted N.lt es).
+Proof. exact keys_sorted_iff_epochs_sorted. Qed.
+Print Assumptions C13_epoch_keys_sorted_iff.
